@@ -50,16 +50,27 @@ type ascii85Reader struct {
 
 // Read implements the [io.Reader] interface.
 func (r *ascii85Reader) Read(p []byte) (n int, err error) {
+	n, err = r.read(p)
+	if err != nil && len(r.leftover) > 0 {
+		// Bytes of the last decoded group did not fit into p.  They must
+		// reach the caller before the error (typically the io.EOF from the
+		// "~>" which follows a partial final group) does.
+		err = nil
+	}
+	return n, err
+}
+
+func (r *ascii85Reader) read(p []byte) (n int, err error) {
 	if len(p) == 0 {
 		return 0, nil
-	}
-	if r.immediateError != nil {
-		return 0, r.immediateError
 	}
 
 	if len(r.leftover) > 0 {
 		n = copy(p, r.leftover)
 		r.leftover = r.leftover[n:]
+	}
+	if r.immediateError != nil {
+		return n, r.immediateError
 	}
 
 	for n < len(p) {
